@@ -12,6 +12,11 @@ TRUSTED = [
     "NOT proved: everything past the modelled cores (keyword handlers, EclipseState/Schedule/SummaryConfig construction, the formatted reader, "
     "boost number parsers) is only exercised by the hardened fuzz run; for result FILES heap errors that neither UBSan nor the libstdc++ assertions see "
     "(raw pointer arithmetic) would need ASan, which cannot be combined with the address-space limit; for DECKS ASan is used",
+    "summary files: translate/esmryscan.py (reads the guards in front of arraySourceList[0], arraySourceList[i+1], timeStepList[0] and the "
+    "num > rest test off ESmry.cpp and refuses a changed loop skeleton); Model/ESmryScan.lean is a hand-written pointer-level mirror of the two "
+    "loops, tied by the esmryscan.* lines of the correspondence (real ESmry on generated array lists / PARAMS length words); NOT modelled: "
+    "getListOfArrays (header walk with fseek), the seek arithmetic (C10), stream reads that fail at end of file (the length word is then "
+    "unspecified; neither UBSan nor the libstdc++ assertions see an uninitialised read)",
     "scoping: the documented EXIT1 policy (process exit on a missing INCLUDE file) is turned into THROW_EXCEPTION by the harness",
     "deck-text lexer part: translate/rawconsts.py (separator/quote tables, code keywords), hooks/decktext.patch (add-only wrappers exporting the "
     "anonymous-namespace lexer of Parser.cpp), harness/deck.cpp `corrlex` built against the UBSan/bounds-checked library, the differ; "
